@@ -534,12 +534,14 @@ fn digest(s: &str) -> String {
             xml_nom::model::QName::Unprefixed(l) => format!("~_{}", enc(l)),
         }
     }
+    // (fix 4acc79c: the string must be one QName / the whole PI target)
+    let is_qname = matches!(xml_nom::qname(s), Ok(("", _)));
     let e = match xml_parser::element(&format!("<{} />", s)) {
-        Ok(("", t)) => qn(&t.name),
+        Ok(("", t)) if is_qname => qn(&t.name),
         _ => "~".to_string(),
     };
     let a = match xml_parser::attribute(&format!("{}=''", s)) {
-        Ok(("", t)) => match &t.name {
+        Ok(("", t)) if is_qname => match &t.name {
             xml_parser::model::AttributeName::DefaultNamespace => format!("~_{}", enc("xmlns")),
             xml_parser::model::AttributeName::Namespace(v) => format!("{}_{}", enc("xmlns"), enc(v)),
             xml_parser::model::AttributeName::QName(q) => qn(q),
@@ -547,7 +549,7 @@ fn digest(s: &str) -> String {
         _ => "~".to_string(),
     };
     let p = match xml_parser::pi(&format!("<?{}?>", s)) {
-        Ok(("", t)) => enc(t.target),
+        Ok(("", t)) if t.target == s && t.value.is_none() => enc(t.target),
         _ => "~".to_string(),
     };
     let r = if xml_parser::reference(&format!("&{};", s)).is_ok() { 1 } else { 0 };
